@@ -79,11 +79,13 @@ void harness(void) {
   REACH("well-formed states exist");
 #if OPN == 0   /* get */
   void *r = hashmap_get2(&M, pool[id], 1);
+  REACH("returns");
   OBLIGE(r == vk, "C17 get returns the value bound to the key, NULL if the key is absent");
 #elif OPN == 1 /* put, below the high watermark (rehash path is obligation 3) */
   ASSUME((M.used * 100) / M.capacity < 70);
   void *v = nondet_ptr_();
   hashmap_put2(&M, pool[id], 1, v);
+  REACH("returns");
   OBLIGE(M.buckets == B && M.capacity == CAP, "C17 put without rehash keeps the table");
   OBLIGE(wf(&M), "C17 put preserves the representation invariant (no duplicate live key, probe chains intact, used exact and below capacity)");
   int s2 = slot_of(B, CAP, id);
@@ -92,6 +94,7 @@ void harness(void) {
   OBLIGE((so >= 0) == (so2 >= 0) && (so < 0 || B[so2].val == vo), "C17 put leaves every other key's binding unchanged");
 #elif OPN == 2 /* delete */
   hashmap_delete2(&M, pool[id], 1);
+  REACH("returns");
   OBLIGE(wf(&M), "C17 delete preserves the representation invariant");
   OBLIGE(slot_of(B, CAP, id) < 0, "C17 after delete the key is absent");
   int so2 = slot_of(B, CAP, other);
